@@ -43,6 +43,8 @@ var extraConfigs = map[string][]buildCfg{
 	"C03": {cfgArm64, cfg386, cfgPurego},
 	"C05": {cfgArm64, cfg386, cfgPurego},
 	"C06": {cfgArm64},
+	"C09": {cfgArm64, cfgPurego},
+	"C13": {cfgPurego},
 	"C11": {cfgArm64},
 	"C14": {cfg386},
 	"C15": {cfgArm64, cfgPurego},
